@@ -1,0 +1,153 @@
+//go:build verif
+
+/*
+ * Verification hooks for property C03 (build tag `verif`): protocol trace of the
+ * taskManager hand-off (submit / finish / recv / refill) and seeded yields that widen the
+ * windows between the channel hand-off and the mutex sections. Nothing in this file is
+ * compiled into a normal build; the call sites are single added lines (hooks/C03.diff of
+ * the verification framework) that call empty stubs when the tag is off.
+ */
+
+package compose
+
+import (
+	"runtime"
+	"sync"
+	"sync/atomic"
+)
+
+// VerifC03Event is one step of the taskManager protocol as observed in a real run.
+type VerifC03Event struct {
+	TM      int      `json:"tm"`             // task manager (one per graph run), numbered per Reset
+	K       string   `json:"k"`              // submit | finish | recv | refill
+	T       int      `json:"t"`              // execution id: finish/recv: the task; submit: the inlined task or -1
+	Node    string   `json:"node,omitempty"` // node key of T
+	Rest    []int    `json:"rest,omitempty"` // submit: executions started as goroutines, in order
+	Nodes   []string `json:"nodes,omitempty"`
+	L       int      `json:"l"`       // finish/refill: l.Len() after the step (read under mu); else -1
+	Ch      int      `json:"ch"`      // finish/refill: len(done) after the step (read under mu); else -1
+	Num     int      `json:"num"`     // submit: num before; recv/refill: num after; finish: -1 (num belongs to the run loop)
+	NeedAll bool     `json:"needAll"` // submit
+}
+
+var verifC03 struct {
+	mu     sync.Mutex
+	tms    map[*taskManager]int
+	tasks  map[*task]int
+	events []VerifC03Event
+	seed   uint64
+	yield  bool
+}
+
+var verifC03Hit atomic.Bool
+var verifC03Ctr atomic.Uint64
+
+// VerifC03TraceEnabled reports whether any patched call site has been executed in this
+// process (false: hooks/C03.diff is not applied to this tree).
+func VerifC03TraceEnabled() bool { return verifC03Hit.Load() }
+
+// VerifC03Reset clears the trace and sets the yield script.
+func VerifC03Reset(seed uint64, yield bool) {
+	verifC03.mu.Lock()
+	verifC03.tms = map[*taskManager]int{}
+	verifC03.tasks = map[*task]int{}
+	verifC03.events = nil
+	verifC03.seed = seed
+	verifC03.yield = yield
+	verifC03.mu.Unlock()
+	verifC03Ctr.Store(0)
+}
+
+// VerifC03Events returns a copy of the events recorded since the last reset.
+func VerifC03Events() []VerifC03Event {
+	verifC03.mu.Lock()
+	defer verifC03.mu.Unlock()
+	return append([]VerifC03Event{}, verifC03.events...)
+}
+
+func verifC03TaskID(ta *task) int {
+	if id, ok := verifC03.tasks[ta]; ok {
+		return id
+	}
+	id := len(verifC03.tasks) + 1
+	verifC03.tasks[ta] = id
+	return id
+}
+
+// verifC03Submit: in taskManager.submit, after the inline decision, before any start.
+func verifC03Submit(t *taskManager, sync *task, rest []*task) {
+	verifC03Hit.Store(true)
+	verifC03.mu.Lock()
+	defer verifC03.mu.Unlock()
+	if verifC03.tms == nil {
+		return
+	}
+	id, ok := verifC03.tms[t]
+	if !ok {
+		id = len(verifC03.tms) + 1
+		verifC03.tms[t] = id
+	}
+	ev := VerifC03Event{TM: id, K: "submit", T: -1, L: -1, Ch: -1, Num: int(t.num), NeedAll: t.needAll}
+	if sync != nil {
+		ev.T = verifC03TaskID(sync)
+		ev.Node = sync.nodeKey
+	}
+	for _, r := range rest {
+		ev.Rest = append(ev.Rest, verifC03TaskID(r))
+		ev.Nodes = append(ev.Nodes, r.nodeKey)
+	}
+	verifC03.events = append(verifC03.events, ev)
+}
+
+// verifC03Finish: in the executor's critical section, after updateChan (t.mu held).
+func verifC03Finish(t *taskManager, ta *task) {
+	verifC03Hit.Store(true)
+	verifC03.mu.Lock()
+	defer verifC03.mu.Unlock()
+	id, ok := verifC03.tms[t]
+	if !ok {
+		return // task manager of an earlier epoch (a straggler): not part of this trace
+	}
+	verifC03.events = append(verifC03.events, VerifC03Event{TM: id, K: "finish", T: verifC03TaskID(ta), Node: ta.nodeKey,
+		L: t.l.Len(), Ch: len(t.done), Num: -1})
+}
+
+// verifC03Recv: in waitOne right after `<-t.done` (the run-loop goroutine, t.mu not held).
+func verifC03Recv(t *taskManager, ta *task) {
+	verifC03Hit.Store(true)
+	verifC03.mu.Lock()
+	if id, ok := verifC03.tms[t]; ok {
+		verifC03.events = append(verifC03.events, VerifC03Event{TM: id, K: "recv", T: verifC03TaskID(ta), Node: ta.nodeKey,
+			L: -1, Ch: -1, Num: int(t.num)})
+	}
+	verifC03.mu.Unlock()
+	verifC03Yield()
+}
+
+// verifC03Refill: in waitOne after the re-fill updateChan (t.mu held).
+func verifC03Refill(t *taskManager) {
+	verifC03Hit.Store(true)
+	verifC03.mu.Lock()
+	defer verifC03.mu.Unlock()
+	if id, ok := verifC03.tms[t]; ok {
+		verifC03.events = append(verifC03.events, VerifC03Event{TM: id, K: "refill", T: -1,
+			L: t.l.Len(), Ch: len(t.done), Num: int(t.num)})
+	}
+}
+
+// verifC03Yield yields the processor a seeded number of times (0..3).
+func verifC03Yield() {
+	verifC03.mu.Lock()
+	on, seed := verifC03.yield, verifC03.seed
+	verifC03.mu.Unlock()
+	if !on {
+		return
+	}
+	z := seed + verifC03Ctr.Add(1)*0x9E3779B97F4A7C15
+	z = (z ^ (z >> 30)) * 0xBF58476D1CE4E5B9
+	z = (z ^ (z >> 27)) * 0x94D049BB133111EB
+	z ^= z >> 31
+	for i := uint64(0); i < z%4; i++ {
+		runtime.Gosched()
+	}
+}
